@@ -1024,11 +1024,20 @@ impl Decompressor {
         Self::open(&self.archive_path, self.config.clone())
     }
 
-    /// Write a sample to a FASTA file
+    /// Write a sample to a FASTA file (the file is created, or truncated if it exists)
     pub fn write_sample_fasta(&mut self, sample_name: &str, output_path: &Path) -> Result<()> {
-        let contigs = self.get_sample(sample_name)?;
-
         let mut writer = GenomeWriter::<File>::create(output_path)?;
+        self.write_sample_to(sample_name, &mut writer)
+    }
+
+    /// Append the FASTA records of a sample to an already open writer, so that several samples
+    /// can go to one output
+    pub fn write_sample_to<W: std::io::Write>(
+        &mut self,
+        sample_name: &str,
+        writer: &mut GenomeWriter<W>,
+    ) -> Result<()> {
+        let contigs = self.get_sample(sample_name)?;
 
         for (contig_name, contig_data) in contigs {
             // Convert numeric encoding back to ASCII using CNV_NUM lookup table
